@@ -69,6 +69,9 @@ func Family() []*Schema {
 		// nullable column, and changes it to NULL
 		{Name: "t_nullw", KeyKind: "int", KeyCols: []string{"id"}, Nullable: true, NullOnly: true,
 			DDL: "CREATE TABLE t_nullw (id INT NOT NULL, w1 INT NOT NULL, w2 VARCHAR(64) NULL, u1 INT NOT NULL, PRIMARY KEY (id))"},
+		// t_compc (SCHEMA=t_compc only): composite keys whose values concatenate to the same text ((1,"12") and (11,"2"))
+		{Name: "t_compc", KeyKind: "compc", KeyCols: []string{"id", "sub"},
+			DDL: "CREATE TABLE t_compc (id INT NOT NULL, sub VARCHAR(16) NOT NULL, w1 INT NOT NULL, w2 VARCHAR(64) NOT NULL, u1 INT NOT NULL, PRIMARY KEY (id, sub))"},
 		// t_numw (SCHEMA=t_numw only): the written part is a VARCHAR whose three values are different texts of the
 		// same number (none of them is valid base64, which is C08's open finding F-C08-4)
 		{Name: "t_numw", KeyKind: "int", KeyCols: []string{"id"}, NullOnly: true, W2Vals: []interface{}{"042", "42", "42.0"},
@@ -91,6 +94,11 @@ func (s *Schema) KeyVals(k int) []interface{} {
 	case "comp":
 		// all rows share the leading key column: a client that identifies rows by it alone confuses them
 		return []interface{}{int64(5), fmt.Sprintf("s%d", k)}
+	case "compc":
+		if k == 1 {
+			return []interface{}{int64(1), "12"}
+		}
+		return []interface{}{int64(11), fmt.Sprint(k)}
 	case "str":
 		// key texts that contain the separators of the lock-key grammar
 		return []interface{}{[]string{"", "k_1", "k,2", "k:3", "k;4"}[k]}
